@@ -90,7 +90,10 @@ Fixpoint expand_keys (prev : list bytes) (l : list (option (list bytes))) : list
 Definition check_case17 (k : case17) : bool :=
   list_eqb res_eqb (snd (im_run (im_new (k_brokers k)) (k_ops k))) (k_im k) &&
   list_eqb res_eqb (snd (et_run (et_new (k_brokers k)) (k_ops k))) (k_et k) &&
-  list_eqb (perm_eqb bytes_eqb) (et_run_keys (et_new (k_brokers k)) (k_ops k)) (expand_keys [] (k_keys k)).
+  match k_keys k with
+  | [] => true   (* key sets not observed (scale cases with hundreds of keys): answers only *)
+  | ks => list_eqb (perm_eqb bytes_eqb) (et_run_keys (et_new (k_brokers k)) (k_ops k)) (expand_keys [] ks)
+  end.
 
 (* ---------- C16: commits and OffsetFetch through the coordinator ---------- *)
 Inductive kstep :=
